@@ -1,5 +1,6 @@
 import PycsepVerif.Proto
 import PycsepVerif.GeneratedSrc
+import PycsepVerif.Drive.C18b
 /-! driver ops `src_<f>`: the definitions generated from the Python source (GeneratedSrc.lean), made executable so that
     harness/src_tie.py can compare them with the real Python functions (validation of translator + prelude). -/
 namespace Drive.Src
@@ -12,6 +13,10 @@ def tz? : String → Option Py.Tz
 
 def showErr : Py.Err → String
   | .valueError => "ValueError" | .indexError => "IndexError" | .assertionError => "AssertionError" | .other => "Exception"
+
+def showErrX : Py.ErrX → String
+  | .keyError => "KeyError" | .typeError => "TypeError" | .attributeError => "AttributeError" | .valueError => "ValueError"
+  | .other => "Exception"
 
 def showExcept {β : Type} (f : β → String) : Except Py.Err β → String
   | .ok b => f b
@@ -93,6 +98,44 @@ def handle : List String → Option String
             s!"{r.1.us}:{r.2.1}:{showRat r.2.2.1}:{showRat r.2.2.2.1}:{showRat r.2.2.2.2.1}:{showRat r.2.2.2.2.2}")
             (Src.horus_record 0 y mo d hh mi sec lat lon dep mw)
       | _, _ => "bad-op")
+  -- C18 object layer: values in the prefix notation of Drive/C18b.lean, fields separated by `;`
+  | ["src_er_init", fs] => some (match (fs.splitOn ";").mapM Drive.C18b.parse? with
+      | some [a, b, c, d, e, f, g, h, i] =>
+          let r := Src.er_init a b c d e f g h i
+          ";".intercalate ([r.1, r.2.1, r.2.2.1, r.2.2.2.1, r.2.2.2.2.1, r.2.2.2.2.2.1, r.2.2.2.2.2.2.1, r.2.2.2.2.2.2.2.1,
+            r.2.2.2.2.2.2.2.2].map Drive.C18b.enc)
+      | _ => "bad-op")
+  | ["src_er_to_dict", fs] => some (match (fs.splitOn ";").mapM Drive.C18b.parse? with
+      | some [a, b, c, d, e, f, g, h, i, t] =>
+          (match Src.er_to_dict a b c d e f g h i t with
+           | .ok d => Drive.C18b.enc d
+           | .error e => showErrX e)
+      | _ => "bad-op")
+  | ["src_er_from_dict", v] => some (match Drive.C18b.parse? v with
+      | some d =>
+          (match Src.er_from_dict d with
+           | .ok r => ";".intercalate ([r.1, r.2.1, r.2.2.1, r.2.2.2.1, r.2.2.2.2.1, r.2.2.2.2.2.1, r.2.2.2.2.2.2.1,
+               r.2.2.2.2.2.2.2.1, r.2.2.2.2.2.2.2.2].map Drive.C18b.enc)
+           | .error e => showErrX e)
+      | none => "bad-op")
+  | ["src_grid_from_dict", v] => some (match Drive.C18b.parse? v with
+      | some d =>
+          (match Src.grid_from_dict d with
+           | .ok r => ";".intercalate ([r.1, r.2.1, r.2.2.1, r.2.2.2].map Drive.C18b.enc)
+           | .error e => showErrX e)
+      | none => "bad-op")
+  | ["src_grid_to_dict", quad, name, dh, origins] => some (
+      let nm : Option (Option String) := if name = "N" then some none else (Drive.C18.fromHex? (name.dropEnd 1).toString).map some
+      let os : Option (List (ResultJson.F64 × ResultJson.F64)) := parseList? (fun s => match s.splitOn ":" with
+        | [a, b] => (Drive.C18.parseF64? a).bind (fun x => (Drive.C18.parseF64? b).map (fun y => (x, y)))
+        | _ => none) origins
+      match nm, Drive.C18.parseF64? dh, os with
+      | some nm, some d, some os =>
+          (match (if quad == "1" then Src.quad_to_dict nm os
+                  else Src.grid_to_dict nm d os (JsonTree.PyObj.str "CartesianGrid2D")) with
+           | .ok v => Drive.C18b.enc v
+           | .error e => showErrX e)
+      | _, _, _ => "bad-op")
   | ["src_discretize", rc, bins, ps] => some (match parseList? parseRat? bins, parseList? parseRat? ps with
       | some bins, some ps => showExcept (showList showRat) (Src.discretize ps bins (rc == "1"))
       | _, _ => "bad-op")
@@ -115,6 +158,35 @@ def handle : List String → Option String
   | ["src_strptime_to_utc_epoch", cs, fs] => some (match parseList? String.toNat? cs, parseList? String.toNat? fs with
       | some cs, some fs => showExcept showInt (Src.strptime_to_utc_epoch (cs.map Char.ofNat) (fs.map Char.ofNat))
       | _, _ => "bad-op")
+  | ["src_csep_record", i, first, cells] => some (
+      let cs : Option (List (List Char)) := if cells == "E" then some [] else
+        (cells.splitOn ";").mapM (fun c => (parseList? String.toNat? c).map (fun l => l.map Char.ofNat))
+      match parseInt? i, cs with
+      | some i, some cs => showExcept (fun (r : Option (((List Char ⊕ Int) × Int × Rat × Rat × Rat × Rat) × Int)) =>
+          match r with
+          | none => "none"
+          | some ((eid, ms, lat, lon, dep, mag), cid) =>
+            let e := match eid with
+              | .inl s => "L" ++ ",".intercalate (s.map (fun (c : Char) => toString c.toNat))
+              | .inr n => s!"R{n}"
+            s!"{e}:{ms}:{showRat lat}:{showRat lon}:{showRat dep}:{showRat mag}:{cid}") (Src.csep_record i cs (first == "1"))
+      | _, _ => "bad-op")
+  | ["src_jma_record", i, first, cells] => some (
+      let cs : Option (List (List Char)) := if cells == "E" then some [] else
+        (cells.splitOn ";").mapM (fun c => (parseList? String.toNat? c).map (fun l => l.map Char.ofNat))
+      match parseInt? i, cs with
+      | some i, some cs => showExcept (fun (r : Option (Int × Int × Rat × Rat × Rat × Rat)) =>
+          match r with
+          | none => "none"
+          | some (eid, ms, lat, lon, dep, mag) =>
+            s!"{eid}:{ms}:{showRat lat}:{showRat lon}:{showRat dep}:{showRat mag}") (Src.jma_record i cs (first == "1"))
+      | _, _ => "bad-op")
+  | ["src_csep_is_header", cells] => some (
+      let cs : Option (List (List Char)) := if cells == "E" then some [] else
+        (cells.splitOn ";").mapM (fun c => (parseList? String.toNat? c).map (fun l => l.map Char.ofNat))
+      match cs with
+      | some cs => showExcept (fun (b : Bool) => if b then "True" else "False") (Src.csep_is_header cs)
+      | none => "bad-op")
   | ["src_reader_parse_datetime", cs] => some (match parseList? String.toNat? cs with
       | some cs => showExcept showInt (Src.reader_parse_datetime (cs.map Char.ofNat)) | none => "bad-op")
   | ["src_millis_to_days", xs] => some (match parseList? parseInt? xs with
